@@ -650,8 +650,8 @@ func (x *Exec) checkWriteFrame(st *State, key, ref string, pos ast.Node) {
 				if mu, ok := x.prog.Contracts.Models[l.Fun]; ok && x.revealed[l.Fun] {
 					// a model location covers the fields its definition reads of that object
 					obj := x.cxTermIn(x.entry, l.Args[0], x.entry, x.hdr, nil)
-					if x.modelReadsKey(mu, obj, key) {
-						alts = append(alts, sEq(ref, obj.S))
+					for _, o := range x.modelFootprint(mu, obj, key) {
+						alts = append(alts, sEq(ref, o))
 					}
 				}
 			}
@@ -661,15 +661,44 @@ func (x *Exec) checkWriteFrame(st *State, key, ref string, pos ast.Node) {
 }
 
 func (x *Exec) modelReadsKey(mu *UnitSpec, obj Term, key string) bool {
-	found := false
+	return len(x.modelFootprint(mu, obj, key)) > 0
+}
+
+// modelFootprint: the objects whose field `key` the definition of model mu reads
+// when applied to obj (selector chains rooted at the model's first parameter).
+func (x *Exec) modelFootprint(mu *UnitSpec, obj Term, key string) []string {
+	var out []string
+	if obj.T == nil {
+		obj.T = x.modelParamType(mu, 0)
+	}
+	var evalPath func(e cx) (Term, bool)
+	evalPath = func(e cx) (Term, bool) {
+		switch y := e.(type) {
+		case *cxIdent:
+			if len(mu.Params) > 0 && y.Name == mu.Params[0] {
+				return obj, true
+			}
+		case *cxSel:
+			base, ok := evalPath(y.X)
+			if !ok {
+				return Term{}, false
+			}
+			env := &cxEnv{live: x.entry, ev: x.entry, old: x.entry, binds: map[string]Term{}, bound: map[string]Term{}}
+			saved := x.undecided
+			r := x.cxField(env, base, y.Sel, e)
+			bad := len(x.undecided) > len(saved)
+			x.undecided = saved
+			return r, !bad
+		}
+		return Term{}, false
+	}
 	var walk func(e cx)
 	walk = func(e cx) {
 		switch y := e.(type) {
 		case *cxSel:
-			if id, ok := y.X.(*cxIdent); ok && len(mu.Params) > 0 && id.Name == mu.Params[0] {
-				k2, _ := x.fieldKeyFor(obj, y.Sel)
-				if k2 == key {
-					found = true
+			if base, ok := evalPath(y.X); ok {
+				if k2, _ := x.fieldKeyFor(base, y.Sel); k2 == key {
+					out = append(out, base.S)
 				}
 			}
 			walk(y.X)
@@ -689,10 +718,15 @@ func (x *Exec) modelReadsKey(mu *UnitSpec, obj Term, key string) bool {
 			walk(y.C)
 			walk(y.A)
 			walk(y.B)
+		case *cxQuant:
+			walk(y.Body)
+		case *cxLet:
+			walk(y.Val)
+			walk(y.Body)
 		}
 	}
 	walk(mu.ModelDef)
-	return found
+	return out
 }
 
 func (x *Exec) fieldmapKey(l *cxCall) string {
